@@ -99,7 +99,7 @@ def run_task(task):
         # ---- replay counterexamples on the real code
         bad = [o for o in res['obligations'] if o['status'] in ('sat', 'failed')]
         if bad or res['exception']:
-            res['replay'] = _replay(prop, name, params, bad, res['exception'], seed)
+            res['replay'] = _replay(prop, name, params, bad, res['exception'], seed, opts.get('replay_random', 2))
         # ---- translation validation of the shim on this scenario (sampled)
         if opts.get('tv') and not res['error'] and not res['exception'] and not bad:
             res['tv'] = _tv(prop, name, params, R, sc, seed)
@@ -140,7 +140,7 @@ def _base(label):
     return re.sub(r' \[(T0 == spec|cut \d+/\d+: A == B)\]$', '', label)
 
 
-def _replay(prop, name, params, bad, exception, seed):
+def _replay(prop, name, params, bad, exception, seed, n_random=2):
     """try the solver's inputs, then a few random inputs; a violation is confirmed when an obligation with
     the same base label fails (or the same exception type is raised) on the unmodified code"""
     out = {'confirmed': [], 'unconfirmed': [], 'attempts': 0}
@@ -149,7 +149,7 @@ def _replay(prop, name, params, bad, exception, seed):
     for o in bad:
         if o.get('model_inputs'):
             cands.append((o['label'], o['model_inputs']))
-    cands = cands[:2] + [(None, {})] * 2
+    cands = cands[:2] + [(None, {})] * n_random
     confirmed = {}
     exc_confirmed = None
     for i, (lab, inputs) in enumerate(cands):
@@ -272,7 +272,7 @@ def main(argv):
         for gi, params in enumerate(grid):
             opts = {'timeout_ms': meta.get('timeout_ms', {}).get(tier, 60000 if tier == 'quick' else 300000),
                     'trace': gi == 0, 'tv': gi < meta.get('tv_per_scenario', {}).get(tier, 1),
-                    'cvc5': 2 if gi == 0 else 0}
+                    'cvc5': 2 if gi == 0 else 0, 'replay_random': meta.get('replay_random', 2)}
             tasks.append((prop, s.name, params, tier, seed, opts))
     results = []
     ctxm = mp.get_context('spawn')
